@@ -179,6 +179,10 @@ def trial_alphabet(nm, quick):
   out = [('active', None)]
   for v in itertools.product(vals, repeat=nm):
     out.append(('ok', v))
+  # diverged runs: the same infinity reported by several trials, alone or next to a finite metric
+  inf = float('inf')
+  for v in ([(inf,), (-inf,)] if nm == 1 else [(inf, 0.0), (inf, 1.0), (0.0, inf), (-inf, 1.0), (inf, inf)]):
+    out.append(('ok', v))
   out.append(('infeasible', tuple([max(vals) + 1] * nm)))   # infeasible although its measurement dominates
   out.append(('nan', tuple([float('nan')] + [vals[0]] * (nm - 1))))
   if nm > 1:
